@@ -41,31 +41,17 @@ Theorem C01_blocks_valid_full : forall (c : cfg) (h : list item),
 Proof. exact blocks_valid_crash_free. Qed.
 Print Assumptions C01_blocks_valid_full.
 
-(* (2) REFUTED (a defect of the modelled code, DESIGN section 4 F1).  The statement "whenever a process
-   runs, a well-formed pair of responses (a batch not older than the last block, a successful
-   execution) commits the next block" is FALSE of the model: after boot, two blocks and one EMPTY batch
-   stamped earlier than the last block, the early-saved block fails validation and is re-used as the
-   pending block for ever — [wedged]: no pair of responses whatsoever commits a block or changes
-   anything again. *)
-Theorem C01_no_wedge_refuted :
-  ~ (forall c h, wf_cfg c -> crash_free h = true ->
-       forall v, vol_of (run c h) = Some v ->
-       forall sq e, wf_resp c (run c h) sq e = true ->
-       a_out (step c (img_of (run c h)) v sq e) = OCommitted (g_height (img_of (run c h)) + 1))
-  /\ exists c h, wf_cfg c /\ crash_free h = true /\ wedged c (run c h).
-Proof. exact no_wedge_refuted. Qed.
-Print Assumptions C01_no_wedge_refuted.
-
-(* (2') PARTIAL.  Guard [f1_hit c h = false]: no EMPTY batch with a timestamp earlier than the last
-   block's was ever taken (decidable on the history).  Then a well-formed pair of responses commits
-   the next block in that very step.  Missing for the full property: exactly the guarded histories. *)
-Theorem C01_no_wedge_partial : forall (c : cfg) (h : list item),
-  wf_cfg c -> crash_free h = true -> f1_hit c h = false ->
+(* (2) FULL (since the repair a489023; before it this statement was refuted, see [before_the_repair_F1]).
+   Whenever a process runs, a well-formed pair of responses — a batch not older than the last block, a
+   successful execution — commits the next block in that very step: no sequence of earlier responses
+   leaves the node unable to produce blocks.  No guard on the history. *)
+Theorem C01_no_wedge_full : forall (c : cfg) (h : list item),
+  wf_cfg c -> crash_free h = true ->
   forall v, vol_of (run c h) = Some v ->
   forall sq e, wf_resp c (run c h) sq e = true ->
   a_out (step c (img_of (run c h)) v sq e) = OCommitted (g_height (img_of (run c h)) + 1).
-Proof. exact no_wedge_crash_free_guarded. Qed.
-Print Assumptions C01_no_wedge_partial.
+Proof. exact no_wedge_crash_free. Qed.
+Print Assumptions C01_no_wedge_full.
 
 (* ---- non-vacuity: a concrete history meeting every hypothesis: initial height 5, a failed first start,
    the genesis block, a two-transaction block, an empty block with an EQUAL timestamp, a transient
@@ -84,12 +70,12 @@ Definition ex_history : list item :=
     IRun (AStep SErr (EOk 8)) ].
 
 Example ex_hypotheses :
-  wf_cfg ex_cfg /\ crash_free ex_history = true /\ f1_hit ex_cfg ex_history = false /\
+  wf_cfg ex_cfg /\ crash_free ex_history = true /\
   (exists v, vol_of (run ex_cfg ex_history) = Some v) /\
   wf_resp ex_cfg (run ex_cfg ex_history) (SBatch [14] 300%Z 9) (EOk 9) = true.
 Proof.
   split; [split; [vm_compute; discriminate|reflexivity]|].
-  split; [reflexivity|]. split; [vm_compute; reflexivity|]. split; [eexists; vm_compute; reflexivity|].
+  split; [reflexivity|]. split; [eexists; vm_compute; reflexivity|].
   vm_compute; reflexivity.
 Qed.
 
@@ -100,8 +86,14 @@ Example ex_outcomes :
   /\ option_map s_app (g_state (img_of (run ex_cfg ex_history))) = Some 8.
 Proof. vm_compute. repeat split. Qed.
 
-(* the refutation witness itself is a reachable, well-formed history *)
-Example ex_f1_witness :
-  crash_free f1_history = true /\ f1_hit wcfg f1_history = true /\
-  map o_res (outputs wcfg f1_history) = [OBootOk; OCommitted 1; OCommitted 2; OErrValidate].
+(* the history that wedged the node before the repair a489023 (boot, two blocks, an EMPTY batch stamped
+   earlier than the last block): the batch is now skipped, nothing is saved, and the next well-formed
+   response commits height 3 *)
+Definition f1_cfg : cfg := {| c_chain := 1; c_initial := 1; c_gtime := 0%Z; c_key := 7; c_gaddr := Addr 7 |}.
+Definition f1_history : list item :=
+  [ IRun (ABoot (Some 1)); IRun (AStep SNil (EOk 2)); IRun (AStep (SBatch [5; 6] 1000%Z 1) (EOk 3));
+    IRun (AStep (SBatch [] 500%Z 2) (EOk 4)); IRun (AStep (SBatch [9] 5000%Z 3) (EOk 5)) ].
+Example before_the_repair_F1 :
+  map o_res (outputs f1_cfg f1_history) = [OBootOk; OCommitted 1; OCommitted 2; OSkipped; OCommitted 3]
+  /\ g_block (img_of (run f1_cfg (firstn 4 f1_history))) 3 = None.
 Proof. vm_compute. repeat split. Qed.
